@@ -24,7 +24,7 @@ func runC12(run *Run, replay string) {
 	objectHoverOracle(run, bases*3)
 	for bi := 0; bi < bases; bi++ {
 		r := rand.New(rand.NewSource(subSeed(run.Res.Seed, bi)))
-		opts := ScenarioOpts{Histories: hist, Inject: bi%3 == 1, Gen: GenOpts{Degenerate: bi%7 == 6}}
+		opts := ScenarioOpts{Histories: hist, Inject: bi%3 == 1, Gen: GenOpts{Degenerate: bi%7 == 6, DynFocus: bi%8 == 3}}
 		if bi%5 == 1 {
 			opts.Gen.MaxDepth = 3
 		}
